@@ -650,7 +650,6 @@ func fmtAllowed(l []outc) string {
 	return strings.Join(s, ";")
 }
 
-
 // ---------------------------------------------------------------------------------------
 // Generator (pure: it never runs the implementation). It tracks the member sets and the closed
 // channels itself and uses the declarative oracle above to classify each scenario: exactly
